@@ -469,28 +469,63 @@ impl fmt::Display for ParseTimestampError {
 impl std::error::Error for ParseTimestampError {}
 
 fn parse_rfc3339(fmt: &str) -> Result<Timestamp, ParseTimestampError> {
-    if fmt.len() > 30 || fmt.len() < 19 {
+    // Parse a run of ASCII digits. Callers only pass runs of up to 9 digits, so the result can't overflow
+    fn digits(bytes: &[u8]) -> Result<u32, ParseTimestampError> {
+        let mut value = 0u32;
+
+        for b in bytes {
+            if !b.is_ascii_digit() {
+                return Err(ParseTimestampError {});
+            }
+
+            value = value * 10 + u32::from(b - b'0');
+        }
+
+        Ok(value)
+    }
+
+    // The format is ASCII-only, so work on bytes. This way offsets can never
+    // split a multi-byte character, and non-ASCII input is rejected as a non-digit
+    let fmt = fmt.as_bytes();
+
+    // `0000-00-00T00:00:00Z` through `0000-00-00T00:00:00.000000000Z`
+    if fmt.len() > 30 || fmt.len() < 20 {
         // Invalid length
         return Err(ParseTimestampError {});
     }
 
-    if *fmt.as_bytes().last().unwrap() != b'Z' {
+    if fmt[4] != b'-' || fmt[7] != b'-' || fmt[10] != b'T' || fmt[13] != b':' || fmt[16] != b':' {
+        // Invalid separators
+        return Err(ParseTimestampError {});
+    }
+
+    if fmt[fmt.len() - 1] != b'Z' {
         // Non-UTC
         return Err(ParseTimestampError {});
     }
 
-    let years = u16::from_str_radix(&fmt[0..4], 10).map_err(|_| ParseTimestampError {})?;
-    let months = u8::from_str_radix(&fmt[5..7], 10).map_err(|_| ParseTimestampError {})?;
-    let days = u8::from_str_radix(&fmt[8..10], 10).map_err(|_| ParseTimestampError {})?;
-    let hours = u8::from_str_radix(&fmt[11..13], 10).map_err(|_| ParseTimestampError {})?;
-    let minutes = u8::from_str_radix(&fmt[14..16], 10).map_err(|_| ParseTimestampError {})?;
-    let seconds = u8::from_str_radix(&fmt[17..19], 10).map_err(|_| ParseTimestampError {})?;
-    let nanos = if fmt.len() > 19 {
+    let years = digits(&fmt[0..4])? as u16;
+    let months = digits(&fmt[5..7])? as u8;
+    let days = digits(&fmt[8..10])? as u8;
+    let hours = digits(&fmt[11..13])? as u8;
+    let minutes = digits(&fmt[14..16])? as u8;
+    let seconds = digits(&fmt[17..19])? as u8;
+    let nanos = if fmt.len() > 20 {
+        // The subsecond portion is a `.` followed by 1 to 9 digits
+        if fmt[19] != b'.' || fmt.len() == 21 {
+            return Err(ParseTimestampError {});
+        }
+
         let subsecond = &fmt[20..fmt.len() - 1];
-        u32::from_str_radix(subsecond, 10).unwrap() * 10u32.pow(9 - subsecond.len() as u32)
+        digits(subsecond)? * 10u32.pow(9 - subsecond.len() as u32)
     } else {
         0
     };
+
+    if months == 0 || days == 0 {
+        // Months and days are one-based
+        return Err(ParseTimestampError {});
+    }
 
     Timestamp::from_parts(Parts {
         years,
